@@ -1690,6 +1690,72 @@ func (ck *Check) capacityInInstances(rule string) {
 	ck.floor(rule, "launch-template override literals examined", nLit, 1)
 }
 
+// registryOnlyGrows (C12.R10): RunOnce ends — for every group — when the provider does not know a
+// configured group. The AWS provider's registry is filled at registration and only ever added to
+// or updated: nothing reachable from Refresh deletes an entry or replaces the map.
+func (ck *Check) registryOnlyGrows(rule string) {
+	a := ck.A
+	if a.AwsRefresh == nil {
+		ck.lost(rule, "Refresh", "the provider's Refresh method was not resolved")
+		return
+	}
+	var fReg *types.Var
+	if cp := a.AwsRefresh.Signature.Recv(); cp != nil {
+		if st := derefStruct(cp.Type()); st != nil {
+			for i := 0; i < st.NumFields(); i++ {
+				if mt, ok := st.Field(i).Type().Underlying().(*types.Map); ok && a.TAwsNodeGroup != nil {
+					if pt, ok := mt.Elem().(*types.Pointer); ok && types.Identical(pt.Elem(), a.TAwsNodeGroup) {
+						fReg = st.Field(i)
+					}
+				}
+			}
+		}
+	}
+	if fReg == nil {
+		ck.lost(rule, "registry", "the provider's map of node groups was not found")
+		return
+	}
+	fromReg := func(v ssa.Value) bool {
+		ld, ok := v.(*ssa.UnOp)
+		return ok && ld.Op == token.MUL && fieldOfAddr(ld.X) == fReg
+	}
+	n := 0
+	var fns []*ssa.Function
+	for fn := range ck.P.reachCut([]*ssa.Function{a.AwsRefresh}, nil) {
+		if ck.P.inRepo(fn) && fn.Blocks != nil {
+			fns = append(fns, fn)
+		}
+	}
+	sort.Slice(fns, func(i, j int) bool { return funcID(fns[i]) < funcID(fns[j]) })
+	for _, fn := range fns {
+		for _, b := range fn.Blocks {
+			for _, in := range b.Instrs {
+				switch x := in.(type) {
+				case *ssa.MapUpdate:
+					if fromReg(x.Map) {
+						n++
+					}
+				case *ssa.Call:
+					if bi, ok := x.Common().Value.(*ssa.Builtin); ok && (bi.Name() == "delete" || bi.Name() == "clear") && len(x.Common().Args) > 0 && fromReg(x.Common().Args[0]) {
+						ck.fail(rule, funcID(fn)+"/"+bi.Name(), ck.P.instrPos(x), funcID(fn), "a refresh never removes a registered node group", bi.Name()+" on the registry",
+							"a group missing from one describe answer makes GetNodeGroup fail: RunOnce returns before the later groups are scanned and the process exits")
+					}
+				case *ssa.Store:
+					if fieldOfAddr(x.Addr) == fReg {
+						if fa, ok := x.Addr.(*ssa.FieldAddr); ok {
+							if _, fresh := fa.X.(*ssa.Alloc); fresh {
+								continue
+							}
+						}
+						ck.fail(rule, funcID(fn)+"/replace", ck.P.instrPos(x), funcID(fn), "a refresh never replaces the registry", "store to the registry field", "groups missing from the new map are no longer known to the provider")
+					}
+				}
+			}
+		}
+	}
+	ck.floor(rule, "registrations into the provider's registry reachable from Refresh", n, 1)
+}
+
 // acceptedReported: the converse of outcomeReported. In the frame cs of the cloud step, every return
 // reached after call (IncreaseSize, or the next frame's helper) returned a nil error yields a nil
 // error itself — an accepted request is never reported as a failure, because the caller arms the
@@ -2361,6 +2427,57 @@ func checkC19(ck *Check) {
 			}
 			if s.Fn == td && s.Class == "A-K8S-DEL" {
 				k8sDels = append(k8sDels, s.Call.(*ssa.Call))
+			}
+		}
+		// the cloud half in a helper of its own (`terminateInCloudProvider(provider, group, nodes) error`),
+		// the Kubernetes half in its caller: read in the caller's frame, the helper's call standing for
+		// the cloud delete — the helper returns the cloud delete's error as it is and is handed the list
+		if cloud != nil && len(k8sDels) == 0 && len(a.TryDeleteChain) >= 2 && a.TryDeleteChain[len(a.TryDeleteChain)-1] == td {
+			up := a.TryDeleteChain[len(a.TryDeleteChain)-2]
+			vias := callsTo(up, td)
+			var ups []*ssa.Call
+			for _, s := range a.A {
+				if s.Fn == up && s.Class == "A-K8S-DEL" {
+					ups = append(ups, s.Call.(*ssa.Call))
+				}
+			}
+			if via, ok := func() (*ssa.Call, bool) {
+				if len(vias) != 1 || len(ups) == 0 {
+					return nil, false
+				}
+				v, ok := vias[0].(*ssa.Call)
+				return v, ok
+			}(); ok {
+				// every return of the helper after the cloud call hands on its error; before it, a built error
+				hctx := ck.P.NewCtx(td)
+				ct := hctx.Term(cloud)
+				faithful := td.Signature.Results().Len() == 1 && isErrorType(td.Signature.Results().At(0).Type())
+				for _, b := range td.Blocks {
+					r, ok := b.Instrs[len(b.Instrs)-1].(*ssa.Return)
+					if !ok || !faithful {
+						continue
+					}
+					if cloud.Block() == b || cloud.Block().Dominates(b) {
+						if hctx.Term(r.Results[0]).Key() != ct.Key() {
+							faithful = false
+						}
+					} else if !errorConstructor(r.Results[0]) {
+						faithful = false
+					}
+				}
+				// the list the helper hands to the cloud is its own slice parameter
+				var listParam *ssa.Parameter
+				for _, av := range cloud.Common().Args {
+					if p, ok := av.(*ssa.Parameter); ok {
+						if _, isSl := p.Type().(*types.Slice); isSl {
+							listParam = p
+						}
+					}
+				}
+				ck.cond(faithful && listParam != nil, "C19.R5", funcID(td)+"/cloud-half", ck.P.instrPos(cloud), funcID(td), "the helper around the cloud delete returns that call's error as it is and passes its list parameter on", "", "")
+				if faithful && listParam != nil {
+					td, tctx, cloud, k8sDels = up, ck.P.NewCtx(up), via, ups
+				}
 			}
 		}
 		if cloud == nil || len(k8sDels) == 0 {
